@@ -119,6 +119,8 @@ JudgeFinish(s0, e) ==
              ELSE IF e.returned # FinishEnabled(s0, e.horizon) THEN D("finish")
              ELSE IF ~e.whole_equal THEN D("stepwise_vs_solveequation")
              ELSE IF e.returned /\ ~e.lens_ok THEN D("lengths")
+             \* spec/SolverForms.tla predicts whether the reduction substitutes a copy variable away
+             ELSE IF e.alias_pred # "na" /\ e.alias_pred # e.alias_obs THEN D("alias_substitution")
              ELSE Ok
     IN Worse(p, c)
 
